@@ -1,11 +1,17 @@
-"""exec_py <hexbytes> <addr> <regs> <mem> : execute one instruction on the Python emulator over a flat dict memory.
-regs: BA=..,I=..,X=..,Y=..,U=..,S=..,F=..   mem: a=v,a=v (decimal).  Output:
-  OK pc ba i x y u s f halted | w:addr=val,... (final contents of every address written, sorted) | r:addr,... (data reads in order) | wl:addr,...
+"""exec_py <hexbytes> <addr> <regs> <mem> <fill> [n] : execute n (default 1) instructions on the Python emulator over a flat
+memory.  regs: BA=..,I=..,X=..,Y=..,U=..,S=..,F=..[,TEMPk=..]   mem: a=v,a=v (decimal); unlisted bytes hold a fixed
+pseudo-random fill (or 0).  Output:
+  OK pc ba i x y u s f halted | w:addr=val,... (final contents of every address written) | r:addr,... | wl:addr,...
+exec1      : the same without the access logs
+exec_split <case...> <n> <m> : n+m steps in one emulator vs n steps, architectural state carried into a fresh emulator, m steps
 """
 from binja_test_mocks import binja_api  # noqa: F401
 from binja_test_mocks.eval_llil import Memory
 
 from sc62015.pysc62015.emulator import Emulator, RegisterName
+
+R = RegisterName
+ARCH = ("PC", "BA", "I", "X", "Y", "U", "S", "F")
 
 
 class LogEmu(Emulator):
@@ -27,7 +33,53 @@ def parse_kv(s):
     return out
 
 
-def run(w, want_log=True):
+class Machine:
+    def __init__(self, mem, fill, regs):
+        self.mem = mem
+        self.fill = fill
+        self.reads, self.writes = [], []
+        self.emu = None
+        emu = LogEmu(Memory(self.rd, self.wr))
+        self.emu = emu
+        for k, v in regs.items():
+            emu.regs.set(RegisterName[k], v)
+
+    def default(self, a):
+        return (a * 167 + self.fill * 13) % 256 if self.fill else 0
+
+    def rd(self, a):
+        if self.emu is not None and self.emu.in_eval:
+            self.reads.append(a)
+        v = self.mem.get(a)
+        return self.default(a) if v is None else v
+
+    def wr(self, a, v):
+        self.writes.append(a)
+        self.mem[a] = v & 0xFF
+
+    def steps(self, addr, n):
+        pc = addr
+        for _ in range(n):
+            self.emu.in_eval = False
+            self.emu.execute_instruction(pc)
+            pc = self.emu.regs.get(R.PC)
+
+    def arch(self):
+        g = self.emu.regs.get
+        return {k: g(RegisterName[k]) for k in ARCH}
+
+    def show(self, want_log):
+        g = self.emu.regs.get
+        out = (f"OK pc={g(R.PC)} ba={g(R.BA)} i={g(R.I)} x={g(R.X)} y={g(R.Y)} u={g(R.U)} s={g(R.S)} f={g(R.F)} "
+               f"halted={int(self.emu.state.halted)}")
+        ws = ",".join(f"{a}={self.mem[a]}" for a in sorted(set(self.writes)))
+        out += f" | w:{ws}"
+        if want_log:
+            out += " | r:" + ",".join(str(a) for a in self.reads) + " | wl:" + ",".join(str(a) for a in self.writes)
+        return out
+
+
+def setup(w):
     code = bytes.fromhex(w[0])
     addr = int(w[1])
     regs = parse_kv(w[2])
@@ -35,39 +87,44 @@ def run(w, want_log=True):
     fill = int(w[4]) if len(w) > 4 else 0
     for i, b in enumerate(code):
         mem[addr + i] = b
+    return addr, regs, mem, fill
 
-    def default(a):
-        return (a * 167 + fill * 13) % 256 if fill else 0
-    reads, writes = [], []
-    holder = {}
 
-    def rd(a):
-        if holder.get("emu") is not None and holder["emu"].in_eval:
-            reads.append(a)
-        v = mem.get(a)
-        return default(a) if v is None else v
-
-    def wr(a, v):
-        writes.append(a)
-        mem[a] = v & 0xFF
-
-    emu = LogEmu(Memory(rd, wr))
-    holder["emu"] = emu
-    for k, v in regs.items():
-        emu.regs.set(RegisterName[k], v)
+def run(w, want_log=True):
+    addr, regs, mem, fill = setup(w)
+    n = int(w[5]) if len(w) > 5 else 1
+    m = Machine(mem, fill, regs)
     try:
-        emu.execute_instruction(addr)
+        m.steps(addr, n)
     except Exception as e:  # noqa: BLE001
         return f"ERR {type(e).__name__}"
-    g = emu.regs.get
-    R = RegisterName
-    out = f"OK pc={g(R.PC)} ba={g(R.BA)} i={g(R.I)} x={g(R.X)} y={g(R.Y)} u={g(R.U)} s={g(R.S)} f={g(R.F)} halted={int(emu.state.halted)}"
-    ws = ",".join(f"{a}={mem[a]}" for a in sorted(set(writes)))
-    out += f" | w:{ws}"
-    if want_log:
-        out += " | r:" + ",".join(str(a) for a in reads) + " | wl:" + ",".join(str(a) for a in writes)
-    return out
+    return m.show(want_log)
 
 
 def run_nolog(w):
     return run(w, want_log=False)
+
+
+def run_split(w):
+    addr, regs, mem, fill = setup(w)
+    n, k = int(w[5]), int(w[6])
+    a = Machine(dict(mem), fill, regs)
+    try:
+        a.steps(addr, n + k)
+        ra = a.show(False)
+    except Exception as e:  # noqa: BLE001
+        ra = f"ERR {type(e).__name__}"
+    b1 = Machine(dict(mem), fill, regs)
+    try:
+        b1.steps(addr, n)
+        st = b1.arch()
+        halted = b1.emu.state.halted
+        pc = st.pop("PC")
+        b2 = Machine(b1.mem, fill, st)
+        b2.emu.state.halted = halted
+        b2.writes = list(b1.writes)
+        b2.steps(pc, k)
+        rb = b2.show(False)
+    except Exception as e:  # noqa: BLE001
+        rb = f"ERR {type(e).__name__}"
+    return f"{ra} || {rb}"
